@@ -8,6 +8,7 @@ linked to EVERY repository method of that name.
 from __future__ import annotations
 
 import ast
+import re
 import os
 from dataclasses import dataclass, field
 from functools import lru_cache
@@ -394,10 +395,36 @@ class FuncVisitor(ast.NodeVisitor):
             for n in ast.walk(fn):
                 if isinstance(n, ast.Assign) and len(n.targets) == 1 and isinstance(n.targets[0], ast.Name) and _mutable_expr(n.value):
                     local_ctor.add(n.targets[0].id)
+            local_call: dict[str, ast.Call] = {}
+            for n in ast.walk(fn):
+                if isinstance(n, ast.Assign) and len(n.targets) == 1 and isinstance(n.targets[0], ast.Name) and isinstance(n.value, ast.Call):
+                    local_call[n.targets[0].id] = n.value
+            own_ret = ast.unparse(fn.returns) if fn.returns is not None else ""
+            for n in ast.walk(fn):
+                # ... or the result of a package function / class that builds a mutable object (a parsed Document, a
+                # SchemaDefinition): whoever edits the object a caller was handed edits every later caller's answer
+                v = n.value if isinstance(n, ast.Return) else None
+                if isinstance(v, ast.Name) and v.id in local_call:
+                    v = local_call[v.id]
+                if isinstance(v, ast.Call) and not _immutable_annotation(own_ret) and self._package_call_builds_mutable(v):
+                    self.fi.effects.append(Effect("global_write", f"@{[d for d in decos if d in ('lru_cache', 'cache', 'cached_property')][0]} function hands out the mutable object built by {ast.unparse(v.func)}(...): shared between calls of the process", n.lineno))
+                    break
             for n in ast.walk(fn):
                 if isinstance(n, ast.Return) and n.value is not None and (_mutable_expr(n.value) or (isinstance(n.value, ast.Name) and n.value.id in local_ctor)):
                     self.fi.effects.append(Effect("global_write", f"@{[d for d in decos if d in ('lru_cache', 'cache', 'cached_property')][0]} function returns a mutable object ({ast.unparse(n.value)[:40]}): shared between calls of the process", n.lineno))
                     break
+        # a memo is keyed by == / hash of the arguments: it is transparent only when equal arguments are
+        # indistinguishable to the body. True == 1 == 1.0 and 0.0 == -0.0 are equal-but-distinct, so a memoised
+        # function that may receive numbers answers according to which twin was seen first (call history)
+        memo = [d for d in fn.decorator_list if ast.unparse(d.func if isinstance(d, ast.Call) else d).split(".")[-1] in ("lru_cache", "cache")]
+        if memo:
+            typed = any(isinstance(d, ast.Call) and any(k.arg == "typed" and isinstance(k.value, ast.Constant) and k.value.value is True for k in d.keywords) for d in memo)
+            for a in fn.args.posonlyargs + fn.args.args + fn.args.kwonlyargs + [x for x in (fn.args.vararg, fn.args.kwarg) if x]:
+                if a.arg in ("self", "cls"):
+                    continue
+                ann = ast.unparse(a.annotation) if a.annotation is not None else "Any"
+                if not _faithful_key(ann, typed):
+                    self.fi.effects.append(Effect("memo_key", f"memo of {self.fi.key.split(':')[-1]} is keyed by == on `{a.arg}: {ann}`: equal-but-distinct arguments (True/1/1.0, 0.0/-0.0) share one entry, so the answer depends on which was seen first", fn.lineno))
         # parameter annotations
         for a in fn.args.posonlyargs + fn.args.args + fn.args.kwonlyargs:
             if a.annotation is not None:
@@ -445,6 +472,26 @@ class FuncVisitor(ast.NodeVisitor):
                     self._bind(n.target, n.value)
         for n in own:
             self.visit_node(n)
+
+    def _package_call_builds_mutable(self, call: ast.Call) -> bool:
+        f = call.func
+        r = self.pkg.resolve_name(self.mod, f.id) if isinstance(f, ast.Name) else None
+        if r is None:
+            return False
+        kind, key = r
+        if kind == "class":
+            ci = self.pkg.classes.get(key)
+            if ci is None or ci.is_enum or ci.is_exception:
+                return False
+            frozen = any(isinstance(d, ast.Call) and any(k.arg == "frozen" and isinstance(k.value, ast.Constant) and k.value.value is True for k in d.keywords) for d in ci.node.decorator_list)
+            return not frozen
+        if kind == "func":
+            g = self.pkg.funcs.get(key)
+            if g is None:
+                return False
+            ann = ast.unparse(g.node.returns) if g.node.returns is not None else ""
+            return not _immutable_annotation(ann)
+        return False
 
     def _type_of_annotation(self, ann: ast.AST) -> str | None:
         txt = ast.unparse(ann).replace('"', "").replace("'", "")
@@ -656,6 +703,15 @@ class FuncVisitor(ast.NodeVisitor):
             for t in tgts:
                 for tt in _flatten_targets(t):
                     self._store(tt, n.lineno)
+            if isinstance(n, ast.AugAssign) and isinstance(n.target, ast.Name) and isinstance(n.op, (ast.Add, ast.BitOr, ast.BitAnd, ast.Sub, ast.Mult)):
+                # `x += [...]` on a local NAME that aliases an object reachable from a parameter / self / a module
+                # object extends that object IN PLACE (list.__iadd__, set.__ior__ ...): a store through the alias.
+                # Numbers and strings are immutable: only names whose value is not known to be one of those count.
+                r = {x for x in self.roots(n.target) if x[0] != "fresh"}
+                t = self.type_of(n.target)
+                if r and t not in ("int", "float", "str", "bool", "tuple", "bytes") and not _is_scalar_expr(n.value):
+                    fi.stores.append(Store(frozenset(r), f"{ast.unparse(n.target)} {type(n.op).__name__}= ... (in place through an alias)", "", n.lineno, "aug-inplace"))
+                    self._global_write_check(r, ast.unparse(n)[:60], n.lineno)
         if isinstance(n, ast.Delete):
             for t in n.targets:
                 self._store(t, n.lineno, kind="del")
@@ -879,6 +935,44 @@ def _deterministic_repr(pkg: Package, ci: ClassInfo) -> bool:
         if c.is_dataclass or c.is_enum or c.has_repr or c.is_exception:
             return True
     return False
+
+
+def _is_scalar_expr(e: ast.AST) -> bool:
+    """the right-hand side is visibly a number / string (then `x += e` rebinds an immutable)"""
+    if isinstance(e, ast.Constant) and isinstance(e.value, (int, float, str, bytes, bool)):
+        return True
+    if isinstance(e, ast.JoinedStr):
+        return True
+    if isinstance(e, ast.Call) and ast.unparse(e.func) in ("len", "int", "float", "str", "ord", "sum", "abs", "round"):
+        return True
+    if isinstance(e, ast.BinOp):
+        return _is_scalar_expr(e.left) or _is_scalar_expr(e.right)
+    return False
+
+
+_FAITHFUL_ATOMS = {"str", "bytes", "None", "Path", "TokenType", "pathlib.Path"}
+
+
+def _faithful_key(annotation: str, typed: bool) -> bool:
+    """True when == on values of the annotated type implies they are indistinguishable: text, bytes, None, paths,
+    enum members and tuples / frozensets of those; `int` (and `bool`) only under lru_cache(typed=True); never float
+    (0.0 == -0.0, same type) and never Any / object / unannotated."""
+    atoms = [a for a in re.split(r"[\s|,\[\]]+", annotation.replace("...", "")) if a]
+    for a in atoms:
+        if a in ("tuple", "frozenset", "Optional", "Union", "typing.Optional", "typing.Union"):
+            continue
+        if a in _FAITHFUL_ATOMS:
+            continue
+        if a in ("int", "bool") and typed:
+            continue
+        return False
+    return bool(atoms)
+
+
+def _immutable_annotation(ann: str) -> bool:
+    """the annotated type is built from immutable scalars / tuples / frozensets only"""
+    atoms = [a for a in re.split(r"[\s|,\[\]]+", ann.replace("...", "")) if a]
+    return bool(atoms) and all(a in ("str", "int", "float", "bool", "bytes", "None", "tuple", "frozenset", "Path", "Optional", "re.Pattern", "Pattern", "Literal") or a.startswith(('"', "'")) for a in atoms)
 
 
 def _mutable_expr(e: ast.AST) -> bool:
